@@ -84,9 +84,11 @@ static struct reb_treecell *reb_tree_add_particle_to_cell(struct reb_simulation*
 		struct reb_particle p = particles[pt];
 		if (parent == NULL){ // The new node is a root
 			node->w = r->root_size;
-			int i = MIN((int)floor((p.x + r->boxsize.x/2.)/r->root_size),r->N_root_x-1)%r->N_root_x;
-			int j = MIN((int)floor((p.y + r->boxsize.y/2.)/r->root_size),r->N_root_y-1)%r->N_root_y;
-			int k = MIN((int)floor((p.z + r->boxsize.z/2.)/r->root_size),r->N_root_z-1)%r->N_root_z;
+			// Same root box as the one this node is stored in (see reb_tree_add_particle_to_tree).
+			const int rootbox = reb_get_rootbox_for_particle(r, p);
+			int i = rootbox%r->N_root_x;
+			int j = (rootbox/r->N_root_x)%r->N_root_y;
+			int k = rootbox/(r->N_root_x*r->N_root_y);
 			node->x = -r->boxsize.x/2.+r->root_size*(0.5+(double)i);
 			node->y = -r->boxsize.y/2.+r->root_size*(0.5+(double)j);
 			node->z = -r->boxsize.z/2.+r->root_size*(0.5+(double)k);
@@ -140,10 +142,13 @@ static int reb_reb_tree_get_octant_for_particle_in_cell(const struct reb_particl
   * @return 0 is particle is not in cell, 1 if it is.
   */
 static int reb_tree_particle_is_inside_cell(const struct reb_simulation* const r, struct reb_treecell *node){
-	if (fabs(r->particles[node->pt].x-node->x) > node->w/2. || 
-		fabs(r->particles[node->pt].y-node->y) > node->w/2. || 
-		fabs(r->particles[node->pt].z-node->z) > node->w/2. || 
-        isnan(r->particles[node->pt].y)) {
+	// Compare with the faces of the cell. The difference x-centre can round to exactly w/2 for a particle just outside.
+	const struct reb_particle* const p = &(r->particles[node->pt]);
+	const double hw = node->w/2.;
+	if (p->x > node->x+hw || p->x < node->x-hw || 
+		p->y > node->y+hw || p->y < node->y-hw || 
+		p->z > node->z+hw || p->z < node->z-hw || 
+        isnan(p->y)) {
 		return 0;
 	}
 	return 1;
